@@ -167,7 +167,7 @@ var (
 
 func parseTrace(text, dir string) []traceEv {
 	var evs []traceEv
-	dsyncFD := map[string]bool{} // pid-independent: fd number -> opened with O_(D)SYNC (fds are process-wide)
+	dsyncFD := map[string]bool{}   // pid-independent: fd number -> opened with O_(D)SYNC (fds are process-wide)
 	pending := map[string]string{} // pid -> first half of a call that strace split into "unfinished" / "resumed"
 	for _, line := range strings.Split(text, "\n") {
 		pid := ""
